@@ -50,7 +50,7 @@ CHECKS.update({
         category="model_checking",
         technique="TLA+ typed-tree encoder spec (SaveScript: abstract document A, compact encoding, deviation-parameterised M) model-checked against the MessagePack spec; TLC-generated save scripts executed by the real writer (memory and stream); TLC is the independent decoder of the produced bytes (trace validation)",
         text="MC_SaveScript enumerates typed values of every integer width at all format thresholds, floats, strings/bin/arrays at header thresholds, time points/durations incl. pre-epoch sub-second, containers, typed-key maps and objects growing member by member, and checks on the spec itself that the typed encoder equals Compact(document), decodes back and that map headers equal the members written. Every state is saved by the real MsgPack archive to memory and to a stream; TLC decodes the bytes with the reference decoder and decides: exactly one well-formed object, same data, length of the most compact encoding, memory == stream.",
-        note="Trusted: TLC, harness (constructs C++ values from spec-chosen tuples), MsgPackFormat.tla. Known findings: signed positive values not compact in three ranges; timestamp-96 field order. Bounds: corpus values (thresholds), objects <= 2 (quick) / 4 (thorough) extra members.",
+        note="Trusted: TLC, harness (constructs C++ values from spec-chosen tuples), MsgPackFormat.tla. Known findings: signed positive values not compact in three ranges; timestamp-96 field order. Bounds: corpus values (thresholds), objects <= 2 extra members; exhaustive integer sweep -300..300 (quick) / all 16-bit values and the neighbourhood of 2^16 (thorough) through every holding type; strings and binary of 65535/65536 bytes (arrays at the 16-bit header threshold come from the corpus only: TLC does not finish encoding a 65536-element array).",
         design_ref="DESIGN.md#c06"),
     "C07": dict(
         category="model_checking",
